@@ -118,6 +118,24 @@ func carrierCoverage(r *core.Run, exp, imp []ast.Node) {
 								assigned[id.Name] = map[string]bool{}
 							}
 							assigned[id.Name][s.Sel.Name] = true
+							// an embedded struct assigned as a literal: `v.rootSchema = rootSchema{description: …, name: …}`
+							// sets the promoted fields the literal names
+							if len(as.Lhs) == len(as.Rhs) {
+								for li, l2 := range as.Lhs {
+									if l2 != l {
+										continue
+									}
+									if icl, ok := core.Unparen(as.Rhs[li]).(*ast.CompositeLit); ok {
+										for _, ie := range icl.Elts {
+											if ikv, ok := ie.(*ast.KeyValueExpr); ok {
+												if ik, ok := ikv.Key.(*ast.Ident); ok {
+													assigned[id.Name][ik.Name] = true
+												}
+											}
+										}
+									}
+								}
+							}
 						}
 					}
 				}
